@@ -19,8 +19,8 @@ gen() { # dir eccname pkgsuffix g2coord
 }
 gen bls12-377 BLS12_377 bls12377 "s#NOCHANGE##"
 gen bls12-381 BLS12_381 bls12381 "s#NOCHANGE##"
-gen bls24-315 BLS24_315 bls24315 "s#curve.MapToCurve2(&u)#curve.MapToCurve2(u)#"
-gen bls24-317 BLS24_317 bls24317 "s#curve.MapToCurve2(&u)#curve.MapToCurve2(u)#"
+gen bls24-315 BLS24_315 bls24315 "s#NOCHANGE##"
+gen bls24-317 BLS24_317 bls24317 "s#NOCHANGE##"
 gen bw6-633 BW6_633 bw6633 "s#NOCHANGE##"
 gen bw6-761 BW6_761 bw6761 "s#NOCHANGE##"
 mkdir -p /verif/src/bkall
